@@ -101,6 +101,35 @@ def pieces_of(p, splice, xnames=('x',)):
 _LEN = {}
 
 
+_TEXT = {}
+
+
+def text_dfa(lit, how):
+    """byte DFA of a test on a path text: 'suffix' = the text ends with lit; 'last-segment' = its last segment (what follows the last "/", the
+    whole text when there is none) is lit"""
+    key = (bytes(lit), how)
+    if key not in _TEXT:
+        n = NFA()
+        s0 = n.new()
+        a = n.new()
+        n.add(s0, 0, 255, s0)
+        if how == 'suffix':
+            n.add_eps(s0, a)
+        else:
+            n.add(s0, 47, 47, a)
+            st = n.new()
+            n.add_eps(st, s0)
+            n.add_eps(st, a)
+            s0 = st
+        cur = a
+        for c in bytes(lit):
+            nx = n.new()
+            n.add(cur, c, c, nx)
+            cur = nx
+        _TEXT[key] = determinize(n, s0, [cur], 255).minimize()
+    return _TEXT[key]
+
+
 def length_dfa(op, k):
     """DFA over bytes of the texts whose length n satisfies  n <op> k"""
     if (op, k) not in _LEN:
@@ -301,10 +330,9 @@ class Builder:
             elif k == 'p_in':
                 cons.append((self.c_infix(ML, 'p+', 'p-', lang.predicate_dfa(atom[1], False)), pol))
             elif k == 'p_ends':
-                name = {b'/./': 'ends-with-dot-slash'}.get(atom[1])
-                if name is None:
-                    raise Unhandled(f'path suffix test {atom[1]!r}')
-                cons.append((self.c_infix(ML, 'p+', 'p-', lang.predicate_dfa(name, False)), pol))
+                cons.append((self.c_infix(ML, 'p+', 'p-', text_dfa(atom[1], 'suffix')), pol))
+            elif k == 'p_last_eq':
+                cons.append((self.c_infix(ML, 'p+', 'p-', text_dfa(atom[1], 'last-segment')), pol))
             elif k == 'cmp' and atom[1] in ('Gt', 'Ge', 'Lt', 'Le', 'Eq', 'Ne') and isinstance(atom[3], Aff) and atom[3].is_const() and 0 < atom[3].c <= 64 and repr(atom[2]) == 'pend -pstart':
                 cons.append((self.c_infix(ML, 'p+', 'p-', length_dfa(atom[1], atom[3].c)), pol))
             elif k == 'cmp' and atom[1] == 'Gt' and repr(atom[2]) == 'pstart' and isinstance(atom[3], Aff) and atom[3] == Aff():
@@ -340,7 +368,7 @@ class Builder:
                 ms.add(atom[1] + '+')
             elif atom[0] in ('lls', 'fsc') and atom[1] in (('comp', 'p'), ('arg', 'PATH')):
                 ms |= {'p+', 'p-'}
-            elif atom[0] in ('p_in', 'p_ends') or (atom[0] == 'cmp' and (repr(atom[2]) in ('pend -pstart', 'pstart', 'pend'))):
+            elif atom[0] in ('p_in', 'p_ends', 'p_last_eq') or (atom[0] == 'cmp' and (repr(atom[2]) in ('pend -pstart', 'pstart', 'pend'))):
                 ms |= {'p+', 'p-'}
             elif atom[0] == 'w_starts':
                 m, _skip = position_skip(p, atom[1])
